@@ -516,6 +516,8 @@ for _p in ("C04", "C05", "C07", "C08"):
 
 from . import scenarios  # noqa: E402
 
+REGISTRY["C13"]["engines"] = list(REGISTRY["C13"]["engines"]) + [engine_khist.run]
+REGISTRY["C13"]["rule"] += " || K-hist: histories of calls / setup() / executors (target, exclude, root, cache_deps_of, from_cache) with RUN_DEBUG_NODES switched per operation: the executed set of every operation vs the model"
 REGISTRY["C09"]["engines"] = list(REGISTRY["C09"]["engines"]) + [engine_khist.run]
 REGISTRY["C09"]["rule"] += " || " + HIST_RULE
 for _p in ("C09", "C14", "C17", "C16", "C10", "C13", "C08", "C04", "C11", "C18", "C01", "C07"):
